@@ -19,8 +19,34 @@ class Skip(Exception):
 
 NAMES = [None, "", "a", "b", "c", "x", "y", "w", "val_0", "val_1", "val_2", "val_3",
          "node_Add_0", "node_Add_1", "node_Relu_2", "k", "a_1", "b_1"]
+# a str that no protobuf string field accepts (a lone surrogate, which os.fsdecode / surrogateescape produce):
+# renaming a value backed by a proto-backed tensor to it makes the tensor's own name setter raise
+BAD_NAME = "s\udcff"
+SPECIAL_TENSOR_BASE = 100  # tensor indices >= this select the collaborator tensors below
 OPTYPES = ["Add", "Relu", "Identity", "If", "Concat", "Split", "Custom"]
 DTYPES = [ir.DataType.FLOAT, ir.DataType.INT64, ir.DataType.FLOAT16, ir.DataType.BOOL]
+
+
+class PickyTensor(ir.Tensor):
+    """A user-defined tensor class (any TensorProtocol implementation may back a value) that validates
+    the name it is given: a collaborator that can reject a rename in the middle of an IR call."""
+
+    @property
+    def name(self):
+        return ir.Tensor.name.fget(self)
+
+    @name.setter
+    def name(self, value):
+        if value is not None and not (isinstance(value, str) and value.isidentifier()):
+            raise ValueError(f"PickyTensor: {value!r} is not an acceptable tensor name")
+        ir.Tensor.name.fset(self, value)
+
+
+def _special_tensor(k: int):
+    if k % 2 == 0:
+        import onnx.numpy_helper
+        return ir.serde.TensorProtoTensor(onnx.numpy_helper.from_array(np.arange(3, dtype=np.float32), name="tp"))
+    return PickyTensor(np.arange(2, dtype=np.float32), name="picky")
 
 
 class Result:
@@ -44,6 +70,7 @@ class World:
         self.values: list[ir.Value] = []
         self.models: list[ir.Model] = []
         self.tensors: list = []
+        self.special_tensors: dict = {}
         self.keepalive: list = []
         self._labels: dict[int, str] = {}
         self.broken: dict[int, str] = {}  # id(object) -> why its accessors cannot be read
@@ -174,6 +201,11 @@ class World:
     def tensor(self, i):
         if i is None:
             return None
+        if i >= SPECIAL_TENSOR_BASE:
+            k = (i - SPECIAL_TENSOR_BASE) % 2
+            if k not in self.special_tensors:
+                self.special_tensors[k] = _special_tensor(k)
+            return self.special_tensors[k]
         while len(self.tensors) <= (i % 4):
             k = len(self.tensors)
             self.tensors.append(ir.tensor(np.arange(k + 1, dtype=np.float32), name=f"t{k}"))
